@@ -24,6 +24,12 @@ def reset_stage_for_retry(stage: StageExecution) -> None:
     # split's recorded branch activations belong to the previous iteration.
     for key in ("_join_fired", "_completed_branches", "_activated_branches"):
         stage.context.pop(key, None)
+    # A signal delivered to the previous iteration was consumed by it: left in
+    # place, the re-armed task would read it again and never suspend (one
+    # approval would wave every later iteration of an approval gate through).
+    # The mailbox of not yet delivered signals (_buffered_signals) is kept.
+    for key in ("_signal_name", "_signal_data"):
+        stage.context.pop(key, None)
     for task in stage.tasks:
         task.status = WorkflowStatus.NOT_STARTED
         task.start_time = None
